@@ -14,6 +14,7 @@ class Wire:
         self.writes = []
         self.server = server
         self.recv_calls = 0
+        self.segments = []      # what the reactive server released, one entry per sendall / TLS handshake
 
     def feed(self, b=b"", sched=None):
         self.stream += b
@@ -35,7 +36,9 @@ class FakeSocket:
         b = bytes(b)
         self.wire.writes.append((self.tls, b))
         if self.wire.server is not None:
-            self.wire.stream += self.wire.server.receive(b)
+            seg = self.wire.server.receive(b)
+            self.wire.stream += seg
+            self.wire.segments.append(bytes(seg))
 
     def recv(self, n):
         w = self.wire
@@ -63,7 +66,9 @@ class FakeCtx:
         if not self.ok:
             raise ssl.SSLError("handshake failed")
         if self.wire.server is not None and hasattr(self.wire.server, "tls_started"):
-            self.wire.stream += self.wire.server.tls_started()
+            seg = self.wire.server.tls_started()
+            self.wire.stream += seg
+            self.wire.segments.append(bytes(seg))
         return FakeSocket(self.wire, tls=True)
 
 
@@ -137,14 +142,18 @@ class Session:
         return self.call(lambda: getattr(self.client, name)(*args))
 
 
-def req_connect(stream, sched, login, pw, authz="", starttls=False, mech=None, tcp=True, tlsok=True):
+def enc_later(segs):
+    return "-" if not segs else ";".join(hexor(s) for s in segs)
+
+
+def req_connect(stream, sched, login, pw, authz="", starttls=False, mech=None, tcp=True, tlsok=True, later=None):
     e = lambda s: hexor(s.encode("utf-8") if isinstance(s, str) else s)
-    return "c op=connect tcp=%d tlsok=%d login=%s pw=%s authz=%s starttls=%d mech=%s stream=%s sched=%s" % (
+    return "c op=connect tcp=%d tlsok=%d login=%s pw=%s authz=%s starttls=%d mech=%s stream=%s sched=%s later=%s" % (
         tcp, tlsok, e(login), e(pw), e(authz), starttls, "-" if mech is None else e(mech), hexor(stream),
-        ",".join(map(str, sched)) if sched else "e")
+        ",".join(map(str, sched)) if sched else "e", enc_later(later))
 
 
-def req_op(name, *args, stream=None, sched=None):
+def req_op(name, *args, stream=None, sched=None, later=None):
     parts = ["c", "op=" + name]
     keys = ["a", "b"]
     ki = 0
@@ -156,4 +165,5 @@ def req_op(name, *args, stream=None, sched=None):
             ki += 1
     parts.append("stream=" + ("-" if stream is None else hexor(stream)))
     parts.append("sched=" + ("-" if sched is None else (",".join(map(str, sched)) or "e")))
+    parts.append("later=" + enc_later(later))
     return " ".join(parts)
